@@ -772,6 +772,8 @@ def _task(args):
                         eq = num_equal(rden[1], ('float', [b.t for b in pf[-1][1]]))
                         if eq is not False and holds(eq)[0]:
                             f['ok'] += 1; continue
+                    if kind == 'error' and pf and pf[-1][2] in ('err', 'infinite') and rden[0] in ('array', 'object') and ed is not None and sc.JPE[ed] in ('NumberParseFloatError', 'NumberParseInfiniteNumber'):
+                        f['ok'] += 1; continue       # a number inside a container whose f64 parse is summarised as failing: same exclusion as at top level
                     cand('tok.value', f'value-rejected:{rden[0]}', f'a conforming {rden[0]} token is answered with {kind}' + (f' ({sc.JPE[ed]})' if ed is not None else ''), model_of(), d)
                     continue
                 eq = den_equal(rden, implden)
